@@ -116,7 +116,9 @@ Proof. vm_compute. reflexivity. Qed.
 
 (* Per-run obligations on the regenerated attribute read/write sets of PandoraMachine, for the
    four values of (multiscale?, right products?): run_prepare reads no attribute but the
-   persistent pair (right_disp_map, step) and assigns both products; matching_cost_prepare and
+   persistent `step`, assigns both products and right_disp_map on every path (the callbacks all read
+   right_disp_map: a run_prepare that keeps the request of an earlier pipeline fails this
+   obligation); matching_cost_prepare and
    matching_cost_run read only what run_prepare or they themselves assigned; every other run
    callback reads only that (run_multiscale is exempt when there is no multiscale). *)
 Definition skip_of (multi : bool) : list string := if multi then [] else multiscale_callbacks.
@@ -128,12 +130,15 @@ Theorem C18_run_attrs_covered :
           [(false, false); (false, true); (true, false); (true, true)] = true.
 Proof. vm_compute. reflexivity. Qed.
 
-(* the attributes a run does not recompute are exactly these two; both are initialised by
-   __init__ (so a fresh machine has them) *)
+(* the only attribute a run reads without recomputing it is `step` (assigned by
+   matching_cost_check_conf, initialised by __init__); right_disp_map is reassigned by
+   run_prepare on every path *)
 Theorem C18_persistent_attributes :
-  persist = ["right_disp_map"; "step"]%string /\ subset_s persist attrs_init = true /\
+  persist = ["step"]%string /\ subset_s persist attrs_init = true /\
+  mem_s "right_disp_map" (cb_must (prepare_info false)) = true /\
+  mem_s "right_disp_map" (cb_must (prepare_info true)) = true /\
   returned_attrs = products.       (* pandora.run returns exactly the two product attributes *)
-Proof. split; [reflexivity|split; vm_compute; reflexivity]. Qed.
+Proof. split; [reflexivity|repeat split; vm_compute; reflexivity]. Qed.
 
 (* class-level / module-level dictionaries written by check/run code: every writer overwrites
    the same keys before validating *)
@@ -145,8 +150,8 @@ Section C18_history.
   Variable sem : string -> Z -> store value -> store value. (* meaning of each run callback (name, configured step) *)
   Variable prep_sem : store value -> store value.         (* meaning of run_prepare for the given cfg and inputs *)
 
-  (* The products of pandora.run are a function of (pipeline, inputs, right_disp_map, step):
-     two machines in ARBITRARY states that agree on the persistent pair -- a fresh one and one
+  (* The products of pandora.run are a function of (pipeline, inputs, step):
+     two machines in ARBITRARY states that agree on `step` -- a fresh one and one
      that went through any calls -- return the same left and right products, for every
      accepted pipeline, number of scales, and every meaning of the callbacks that respects the
      regenerated frames (reads / assigns / may assign; attributes read may be mutated in place). *)
